@@ -463,6 +463,10 @@ def applyEdit (root : T) (recv : Path) (notify : Bool) (f : List T → Option Ed
         (e.ents.map fun x => ({ path := recv ++ [Key.i x.1], old := x.2.1, new := x.2.2 }, recv)) notify
   | _ => { tree := root, ok := false, events := [] }
 
+def setItems (items' : List (Key × T)) : T → T
+  | .leaf a => .leaf a
+  | .node m k _ => .node m k items'
+
 /-- `Dict.clear()` / `Dict.popitem()` (fix C09-F55): the removed keys are reported (value -> MISSING). -/
 def applyKeyEdit (root : T) (recv : Path) (notify : Bool)
     (f : List (Key × T) → Option (List (Key × T) × List (Key × Option T × Option T))) : Out :=
@@ -471,9 +475,7 @@ def applyKeyEdit (root : T) (recv : Path) (notify : Bool)
     match f items with
     | none => { tree := root, ok := false, events := [] }
     | some (items', ents) =>
-      finish (resetChain (mapAt (fun t => match t with
-          | .leaf a => .leaf a
-          | .node m k _ => .node m k items') root recv) recv)
+      finish (resetChain (mapAt (setItems items') root recv) recv)
         (ents.map fun x => ({ path := recv ++ [x.1], old := x.2.1, new := x.2.2 }, recv)) notify
   | _ => { tree := root, ok := false, events := [] }
 
